@@ -39,6 +39,130 @@ def _cut(body, what, regex):
     return ms[0]
 
 
+# --- allocation-size / offset expressions of the callers of the converters (C arithmetic -> Lean Nat term)
+
+def _cexpr(text, what, subst):
+    """translate a C integer expression over + - * & ( ) literals and the identifiers named in `subst` into a fully
+    parenthesised Lean `Nat` term.  `a - b` is accepted only as `LITERAL - (e & MASK)` with MASK <= LITERAL (then the
+    truncated subtraction of `Nat` is the C one).  Anything else raises."""
+    src = text
+    for k, v in subst:
+        src = src.replace(k, " " + v + " ")
+    toks = re.findall(r"\s*(0[xX][0-9a-fA-F]+|\d+|[A-Za-z_]\w*|[-+*&()])", src)
+    if "".join(toks) != re.sub(r"\s+", "", src):
+        raise TranslateError("%s: unrecognised token in `%s`" % (what, text))
+    names = set(v for _, v in subst)
+    pos = [0]
+
+    def peek():
+        return toks[pos[0]] if pos[0] < len(toks) else None
+
+    def eat():
+        pos[0] += 1
+        return toks[pos[0] - 1]
+
+    def atom():
+        t = peek()
+        if t is None:
+            raise TranslateError("%s: truncated expression `%s`" % (what, text))
+        eat()
+        if t == "(":
+            e = band()
+            if peek() != ")":
+                raise TranslateError("%s: `)` expected in `%s`" % (what, text))
+            eat()
+            return e
+        if re.fullmatch(r"0[xX][0-9a-fA-F]+|\d+", t):
+            return ("lit", int(t, 0))
+        if t in names:
+            return ("var", t)
+        raise TranslateError("%s: unknown identifier `%s` in `%s`" % (what, t, text))
+
+    def mul():
+        e = atom()
+        while peek() == "*":
+            eat()
+            e = ("*", e, atom())
+        return e
+
+    def add():
+        e = mul()
+        while peek() in ("+", "-"):
+            op = eat()
+            r = mul()
+            if op == "-" and not (e[0] == "lit" and r[0] == "&&&" and r[2][0] == "lit" and r[2][1] <= e[1]):
+                raise TranslateError("%s: subtraction other than LITERAL - (e & MASK<=LITERAL) in `%s`" % (what, text))
+            e = (op, e, r)
+        return e
+
+    def band():
+        e = add()
+        while peek() == "&":
+            eat()
+            e = ("&&&", e, add())
+        return e
+
+    e = band()
+    if pos[0] != len(toks):
+        raise TranslateError("%s: trailing tokens in `%s`" % (what, text))
+
+    def show(e):
+        if e[0] == "lit":
+            return str(e[1])
+        if e[0] == "var":
+            return e[1]
+        return "(%s %s %s)" % (show(e[1]), e[0], show(e[2]))
+    return show(e)
+
+
+def _alloc_exprs(sc):
+    """the buffer sizes, budgets and the scratch offset the String methods hand to the converters (assumption stated in
+    ASSUMPTIONS: sizeof(wchar_t) = 4)"""
+    def one(body, what, regex):
+        ms = re.findall(regex, body, re.S)
+        if len(ms) != 1:
+            raise TranslateError("%s: expected exactly one `%s`, found %d" % (what, regex, len(ms)))
+        return ms[0].strip()
+    L = [("sizeof(wchar_t)", "4"), ("_len", "len")]
+    N = [("(int)wcslen(s)", "n"), ("txt.length()", "n"), ("codes.length()", "n"), ("a.length()", "(n + 1)"), ("length()", "len")]
+    dw = cparse.find_function(sc, r"const\s+wchar_t\s*\*\s*String::dataw\s*\(\s*\)\s*const\s*\{")
+    fw = cparse.find_function(sc, r"String\s*&\s*String::fixW\s*\(\s*\)\s*\{")
+    cw = cparse.find_function(sc, r"String::String\s*\(\s*const\s+wchar_t\s*\*\s*s\s*\)\s*\{")
+    ca = cparse.find_function(sc, r"String::String\s*\(\s*const\s+Array\s*<\s*wchar_t\s*>\s*&\s*txt\s*\)\s*\{")
+    ch = cparse.find_function(sc, r"Array\s*<\s*int\s*>\s*String::chars\s*\(\s*\)\s*const\s*\{")
+    def ansi_off(fn):
+        body = cparse.find_function(sc, fn)
+        m = re.search(r"#ifndef\s+ASL_ANSI(.*?)#else", body, re.S)
+        if not m:
+            raise TranslateError("no #ifndef ASL_ANSI … #else branch in " + fn)
+        return m.group(1)
+    fc = ansi_off(r"String\s+String::fromCodes\s*\([^)]*\)\s*\{")
+    f1 = ansi_off(r"String\s+String::fromCode\s*\(\s*int\s+code\s*\)\s*\{")
+    out = []
+    def emit(name, params, doc, text, what, subst):
+        out.append("/-- `%s` in `%s` -/\ndef %s %s: Nat := %s\n" % (text, what, name, params, _cexpr(text, what, subst)))
+    emit("datawResizeArg", "(len : Nat) ", "", one(dw, "dataw", r"->\s*resize\s*\((.*?),\s*true\s*,\s*false\s*\)\s*;"), "String::dataw", L)
+    emit("datawOffset", "(len : Nat) ", "", one(dw, "dataw", r"int\s+offset\s*=\s*(.*?);"), "String::dataw", L)
+    if not re.search(r"wchar_t\s*\*\s*wstr\s*=\s*\(\s*wchar_t\s*\*\s*\)\s*\(\s*str\s*\(\s*\)\s*\+\s*offset\s*\)\s*;\s*from8bit\s*\(\s*str\s*\(\s*\)\s*,\s*wstr\s*,\s*_len\s*\)\s*;", dw):
+        raise TranslateError("dataw no longer converts with from8bit(str(), (wchar_t*)(str() + offset), _len)")
+    emit("fixWOffset", "(len : Nat) ", "", one(fw, "fixW", r"int\s+offset\s*=\s*(.*?);"), "String::fixW", L)
+    if not re.search(r"to8bit\s*\(\s*\(\s*wchar_t\s*\*\s*\)\s*\(\s*str\s*\(\s*\)\s*\+\s*offset\s*\)\s*,\s*str\s*\(\s*\)\s*,\s*cap\s*\(\s*\)\s*\)\s*;", fw):
+        raise TranslateError("fixW no longer converts with to8bit((wchar_t*)(str() + offset), str(), cap())")
+    emit("fromWideInit", "(n : Nat) ", "", one(cw, "String(const wchar_t*)", r"init\s*\((.*?)\)\s*;"), "String::String(const wchar_t*)", N)
+    if not re.search(r"_len\s*=\s*to8bit\s*\(\s*s\s*,\s*str\s*\(\s*\)\s*,\s*cap\s*\(\s*\)\s*\)\s*;", cw):
+        raise TranslateError("String(const wchar_t*) no longer converts with to8bit(s, str(), cap())")
+    emit("fromWideArrInit", "(n : Nat) ", "", one(ca, "String(Array<wchar_t>)", r"init\s*\((.*?)\)\s*;"), "String::String(const Array<wchar_t>&)", N)
+    if not re.search(r"_len\s*=\s*to8bit\s*\(\s*a\.data\s*\(\s*\)\s*,\s*str\s*\(\s*\)\s*,\s*cap\s*\(\s*\)\s*\)\s*;", ca):
+        raise TranslateError("String(const Array<wchar_t>&) no longer converts with to8bit(a.data(), str(), cap())")
+    emit("fromCodesSize", "(n : Nat) ", "", one(fc, "fromCodes", r"String\s+s\s*\((.*?),\s*0\s*\)\s*;"), "String::fromCodes", N)
+    emit("fromCodesBudget", "(n : Nat) ", "", one(fc, "fromCodes", r"utf32toUtf8\s*\(\s*a\.data\s*\(\s*\)\s*,\s*s\.str\s*\(\s*\)\s*,(.*?)\)\s*\)\s*;"), "String::fromCodes", N)
+    emit("fromCodeSize", "", "", one(f1, "fromCode", r"String\s+s\s*\((.*?),\s*0\s*\)\s*;"), "String::fromCode", N)
+    emit("fromCodeBudget", "", "", one(f1, "fromCode", r"utf32toUtf8\s*\(\s*codes\s*,\s*s\.str\s*\(\s*\)\s*,(.*?)\)\s*\)\s*;"), "String::fromCode", N)
+    emit("charsRoom", "(len : Nat) ", "", one(ch, "chars", r"Array\s*<\s*int\s*>\s*c\s*\((.*?)\)\s*;"), "String::chars", N)
+    emit("charsBudget", "(len : Nat) ", "", one(ch, "chars", r"utf8toUtf32\s*\(\s*str\s*\(\s*\)\s*,\s*c\.data\s*\(\s*\)\s*,(.*?)\)\s*;"), "String::chars", N)
+    return "\n".join(out)
+
+
 def translate(repo):
     ud = cparse.read(repo, "src/unicodedata.cpp")
     up = _table(ud, "toUppercaseU8")
@@ -74,6 +198,7 @@ def translate(repo):
     txt += "/-- `if (code < %d)` in `String::toUpperCase` -/\ndef upperCut : Nat := %d\n" % (ucut, ucut)
     txt += "/-- `if (code < %d)` in `String::toLowerCase` -/\ndef lowerCut : Nat := %d\n" % (lcut, lcut)
     txt += "/-- `if (code1 > %s || code2 > %s)` in `String::equalsNocase` -/\ndef nocaseCut1 : Nat := %s\ndef nocaseCut2 : Nat := %s\n" % (n1, n2, n1, n2)
+    txt += "\n/-! buffer sizes, unit budgets and the scratch offset of the String methods that call the converters -/\n\n" + _alloc_exprs(sc)
     txt += "\nend Gen.Unicode\n"
     return {"Gen/UnicodeGen.lean": txt}
 
